@@ -796,6 +796,11 @@ def run(ctx):
 
     _sh1.run_flags_are_per_run(ctx, 'C01.R10')
     _sh1.restore_ignores_target_state(ctx, 'C01.R5')
+    # restore takes the newest version of each file from ALL snapshots: every adapter's listing is complete
+    from ..report import Relabel as _RL1
+    from .c13 import r2_pagination as _pg1
+
+    _pg1(_RL1(ctx, 'C01.R8'))
     from .shared import queue_put_retries_until_done
 
     queue_put_retries_until_done(ctx, 'C01.R10')
